@@ -1691,13 +1691,13 @@ func ext۰unicode۰IsLower(fr *frame, args []value) value {
 
 func registerModels() {
 	for k, v := range map[string]externalFn{
-		"strings.Count":                            ext۰strings۰Count,
-		"strings.Index":                            ext۰strings۰Index,
-		"strings.LastIndex":                        ext۰strings۰LastIndex,
-		"strings.IndexByte":                        ext۰strings۰IndexByte,
-		"strings.LastIndexByte":                    ext۰strings۰LastIndexByte,
-		"strings.Contains":                         ext۰strings۰Contains,
-		"strings.EqualFold":                        ext۰strings۰EqualFold,
+		"strings.Count":         ext۰strings۰Count,
+		"strings.Index":         ext۰strings۰Index,
+		"strings.LastIndex":     ext۰strings۰LastIndex,
+		"strings.IndexByte":     ext۰strings۰IndexByte,
+		"strings.LastIndexByte": ext۰strings۰LastIndexByte,
+		"strings.Contains":      ext۰strings۰Contains,
+		"strings.EqualFold":     ext۰strings۰EqualFold,
 		"strings.Compare": func(fr *frame, args []value) value {
 			if allConcreteStrings(args[0], args[1]) {
 				return strings.Compare(args[0].(string), args[1].(string))
